@@ -34,6 +34,14 @@ Flag(rule) ==
   /\ nverdicts' = nverdicts + 1
   /\ skipping' = TRUE
 NoFlag == UNCHANGED <<verdicts, nverdicts, skipping>>
+\* A verdict that does not end the scenario: the model keeps following the real execution, so that what the broken step
+\* leads to is still judged (and by the rules of the other properties too).
+FlagSoft(rule) ==
+  /\ verdicts' = IF nverdicts < MaxVerdicts
+                 THEN Append(verdicts, [scenario |-> nscen, line |-> l, run |-> run, rule |-> rule])
+                 ELSE verdicts
+  /\ nverdicts' = nverdicts + 1
+  /\ UNCHANGED skipping
 
 Tuples(s) == {<<s[i][1], s[i][2]>> : i \in 1..Len(s)}
 Cells(s) == [i \in 1..Len(s) |-> <<s[i][1], s[i][2]>>]
@@ -93,7 +101,7 @@ CliEv ==
 ReadAtEv ==
   /\ Step("read_at")
   /\ IF Ev.off + Ev.size <= sc.hdr THEN NoFlag
-     ELSE Flag("FETCH: read_at outside the header region")
+     ELSE FlagSoft("FETCH: read_at outside the header region")
   /\ UNCHANGED <<sc, out, scan, rem, written, run, provided, requested, faulted, nscen, nok, expect, unused>>
 
 \* ---- a read of the output: must agree with the model's file (keeps harness and model in sync)
@@ -104,14 +112,6 @@ ReadEv ==
   /\ UNCHANGED <<sc, out, scan, rem, written, run, provided, requested, faulted, nscen, nok, expect, unused>>
 
 \* ---- a write to the output: Clone's WriteRule (C13), then Clone's WriteOut effect
-\* A write that breaks the discipline is recorded but does not end the scenario: the model's file keeps following the real
-\* one, so that what the broken write leads to (wrong final content, a fetch of something reusable) is still judged.
-FlagSoft(rule) ==
-  /\ verdicts' = IF nverdicts < MaxVerdicts
-                 THEN Append(verdicts, [scenario |-> nscen, line |-> l, run |-> run, rule |-> rule])
-                 ELSE verdicts
-  /\ nverdicts' = nverdicts + 1
-  /\ UNCHANGED skipping
 WriteEv ==
   /\ Step("write")
   /\ IF Ev.off = -1 THEN Flag("W1: write is not unit aligned (not a whole source chunk)") /\ UNCHANGED <<out, rem, written, faulted>>
@@ -133,7 +133,7 @@ WriteEv ==
 ReorderedEv ==
   /\ Step("reordered")
   /\ IF Ev.res = "ok" /\ \E id \in ReusableIds(sc, scan) : rem[id] # {}
-     THEN Flag("LOST: reusable chunk not placed by in-place reordering")
+     THEN FlagSoft("LOST: reusable chunk not placed by in-place reordering")
      ELSE NoFlag
   /\ UNCHANGED <<sc, out, scan, rem, written, run, provided, requested, faulted, nscen, nok, expect, unused>>
 
@@ -152,13 +152,14 @@ ReadChunksEv ==
   /\ Step("read_chunks")
   /\ LET idx == [i \in 1..Len(Ev.ranges) |-> ArchId(Ev.ranges[i])]
          ids == {sc.arch[idx[i]][1] : i \in {j \in 1..Len(idx) : idx[j] # 0}} IN
-     IF \E i \in 1..Len(idx) : idx[i] = 0 THEN Flag("FETCH: requested range is not the stored range of a chunk") /\ UNCHANGED requested
-     ELSE IF \E i, j \in 1..Len(idx) : i # j /\ idx[i] = idx[j] THEN Flag("FETCH: chunk requested twice") /\ UNCHANGED requested
-     ELSE IF ids \cap requested # {} THEN Flag("FETCH: chunk requested twice") /\ UNCHANGED requested
-     ELSE IF \E id \in ids : id \in ReusableIds(sc, scan) THEN Flag("FETCH: chunk found in the prior output was requested from the archive") /\ UNCHANGED requested
-     ELSE IF \E id \in ids : id \in provided THEN Flag("FETCH: chunk found in a seed was requested from the archive") /\ UNCHANGED requested
-     ELSE IF \E id \in ids : rem[id] = {} THEN Flag("FETCH: chunk requested although nothing is left to write for it") /\ UNCHANGED requested
-     ELSE requested' = requested \cup ids /\ NoFlag
+     /\ requested' = requested \cup ids
+     /\ IF \E i \in 1..Len(idx) : idx[i] = 0 THEN FlagSoft("FETCH: requested range is not the stored range of a chunk")
+        ELSE IF \E i, j \in 1..Len(idx) : i # j /\ idx[i] = idx[j] THEN FlagSoft("FETCH: chunk requested twice")
+        ELSE IF ids \cap requested # {} THEN FlagSoft("FETCH: chunk requested twice")
+        ELSE IF \E id \in ids : id \in ReusableIds(sc, scan) THEN FlagSoft("FETCH: chunk found in the prior output was requested from the archive")
+        ELSE IF \E id \in ids : id \in provided THEN FlagSoft("FETCH: chunk found in a seed was requested from the archive")
+        ELSE IF \E id \in ids : rem[id] = {} THEN FlagSoft("FETCH: chunk requested although nothing is left to write for it")
+        ELSE NoFlag
   /\ UNCHANGED <<sc, out, scan, rem, written, run, provided, faulted, nscen, nok, expect, unused>>
 
 \* ---- fault mode: the interrupted run ends (C05: a run whose write failed never reports success)
